@@ -17,19 +17,29 @@ PROPS = ("C03", "C14", "C15")
 VERDICT_FIELD = {"C03": "c03", "C14": "c14", "C15": "c15"}
 
 
+def plan_expr(r):
+    return '[doc |-> "%s", cfg |-> "%s", mc |-> %d, od |-> %s, sp |-> %s]' % (
+        r["DocSet"], r["CfgSet"], r["MaxComments"], "TRUE" if r["OnlyDocumented"] else "FALSE", "TRUE" if r["Specials"] else "FALSE")
+
+
 def tlc_cases(ctx, runs):
-    """runs: list of dicts(DocSet, CfgSet, MaxComments, OnlyDocumented, Specials [, simulate]) -> merged behaviour file"""
+    """runs: list of plans dict(DocSet, CfgSet, MaxComments, OnlyDocumented, Specials [, simulate]).  All exhaustive
+    plans are explored by ONE TLC run (constant Plans of Format.tla), every simulated plan by a run of its own.
+    Returns the merged behaviour file."""
     allb = os.path.join(ctx.work, "fmt_beh.jsonl")
     seen = set()
     per_run = []
+    exhaustive = [r for r in runs if not r.get("simulate")]
+    jobs = []
+    if exhaustive:
+        jobs.append(({"Plans": "{" + ", ".join(plan_expr(r) for r in exhaustive) + "}"}, {}, "cases:%d plans" % len(exhaustive)))
+    for r in runs:
+        if r.get("simulate"):
+            jobs.append(({"Plans": "{" + plan_expr(r) + "}"}, {"simulate": r["simulate"], "depth": 4, "cfg": "FormatSim.cfg"},
+                         "simulate:%s/%s" % (r["DocSet"], r["CfgSet"])))
     with open(allb, "w") as out:
-        for r in runs:
-            defs = {"DocSet": '"%s"' % r["DocSet"], "CfgSet": '"%s"' % r["CfgSet"], "MaxComments": str(r["MaxComments"]),
-                    "OnlyDocumented": "TRUE" if r["OnlyDocumented"] else "FALSE", "Specials": "TRUE" if r["Specials"] else "FALSE"}
-            kw = {}
-            if r.get("simulate"):
-                kw = {"simulate": r["simulate"], "depth": 4, "cfg": "FormatSim.cfg"}
-            m = ctx.tlc("Format", defines=defs, timeout=1700, tag="cases:%s/%s/%s" % (r["DocSet"], r["CfgSet"], r["MaxComments"]), **kw)
+        for defs, kw, tag in jobs:
+            m = ctx.tlc("Format", defines=defs, timeout=1700, tag=tag, **kw)
             if m.violated:
                 raise MachineryFault("Format.tla: mechanism layer violates requirement layer on the model: %s "
                                      "(a lead, not a verdict - see %s)" % (m.violated, m.out_path))
@@ -41,6 +51,7 @@ def tlc_cases(ctx, runs):
                 out.write(line)
                 n += 1
             per_run.append(n)
+    ctx.notes["plans"] = [plan_expr(r) + (" simulate=%d" % r["simulate"] if r.get("simulate") else "") for r in runs]
     ctx.notes["cases_per_tlc_run"] = per_run
     if not seen:
         raise MachineryFault("TLC emitted no case (dead driver)")
@@ -176,14 +187,15 @@ def validate(ctx, event_files, tag="events"):
     for line in open(res.beh_path):
         v = json.loads(line)
         verdicts[v["id"]] = v
+    # canary accounting never pre-empts real mismatches (notes/LESSONS.md 5): deferred, reported by finish()
     if seed_ev is None:
-        raise MachineryFault("no recorded event to derive canaries from")
+        ctx.defer_fault("no recorded event that passed to derive canaries from")
     for cid, f in planted:
         if cid not in verdicts:
-            raise MachineryFault("canary %s was not judged by FormatTrace" % cid)
-        if verdicts[cid][f] is not False:
-            raise MachineryFault("canary %s was accepted by FormatTrace (validator is vacuous)" % cid)
-    ctx.notes["canaries_rejected"] = [c for c, _ in planted]
+            ctx.defer_fault("canary %s was not judged by FormatTrace" % cid)
+        elif verdicts[cid][f] is not False:
+            ctx.defer_fault("canary %s was accepted by FormatTrace (validator is vacuous)" % cid)
+    ctx.notes["canaries_rejected"] = [c for c, f in planted if c in verdicts and verdicts[c][f] is False]
     return verdicts, n
 
 
@@ -261,6 +273,6 @@ def run(ctx, pid, runs, corpus_keep=None, corpus_maxbytes=0):
     skipped = classify(ctx, pid, ress, cres, verdicts)
     bad = sum(v for k, v in skipped.items() if k.startswith("render"))
     if bad * 20 > ncases:
-        raise MachineryFault("%d of %d generated documents do not parse to the tree the specification generated "
-                             "(concretiser or projection out of date)" % (bad, ncases))
+        ctx.defer_fault("%d of %d generated documents do not parse to the tree the specification generated "
+                        "(concretiser or projection out of date)" % (bad, ncases))
     ctx.exhaustive = False
